@@ -76,6 +76,12 @@ func c15CanonValue(v reflect.Value, sb *strings.Builder) {
 			sb.WriteString("nil")
 			return
 		}
+		// a pointer to a zero-length slice: gob flattens pointers and does not send a zero-length slice,
+		// it comes back as a nil pointer (Model/Profile.v cptr_list makes the same identification)
+		if v.Kind() == reflect.Ptr && v.Elem().Kind() == reflect.Slice && v.Elem().Len() == 0 {
+			sb.WriteString("nil")
+			return
+		}
 		sb.WriteString("&")
 		c15CanonValue(v.Elem(), sb)
 	case reflect.Struct:
@@ -1254,6 +1260,16 @@ func TestVerif_C15(t *testing.T) {
 	}
 	e.wipe()
 	gobBad := 0
+	// every (saved, loaded) pair goes to Coq in the representation of Model/Profile.v (c15profile.go)
+	ppairs := &c15ProfilePairs{max: 600}
+	for i, p := range pool { // the six profiles of the histories (extensions map, two-entry maps, ...)
+		user := "pool" + strconv.Itoa(i)
+		if err := e.st.SaveUserProfile(user, p); err != nil {
+			t.Fatalf("pool save: %v", err)
+		}
+		got, _, _, _ := e.st.LoadUserProfile(user)
+		ppairs.add(fmt.Sprintf("pool profile %d saved for %s and loaded from the primary", i+1, user), p, got)
+	}
 	for i := 0; i < nGob; i++ {
 		p := mat.random(rng)
 		want := c15Canon(p)
@@ -1262,6 +1278,7 @@ func TestVerif_C15(t *testing.T) {
 			t.Fatalf("gob save: %v", err)
 		}
 		got, ok, fromCache, err := e.st.LoadUserProfile(user)
+		ppairs.add(fmt.Sprintf("random profile #%d saved for %s and loaded from the primary (ok=%v fromCache=%v err=%v): %s", i, user, ok, fromCache, err, want[:minInt(len(want), 300)]), p, got)
 		okP := err == nil && ok && !fromCache && c15Canon(got) == want
 		okC := true
 		if i%5 == 0 {
@@ -1270,6 +1287,7 @@ func TestVerif_C15(t *testing.T) {
 			}
 			e.setMode(c15Slow)
 			got2, ok2, fromCache2, err2 := e.st.LoadUserProfile(user)
+			ppairs.add(fmt.Sprintf("random profile #%d saved for %s, copied, loaded with the primary slow (ok=%v fromCache=%v err=%v): %s", i, user, ok2, fromCache2, err2, want[:minInt(len(want), 300)]), p, got2)
 			okC = err2 == nil && ok2 && fromCache2 && c15Canon(got2) == want
 			e.setMode(c15Up)
 		}
@@ -1442,6 +1460,9 @@ func TestVerif_C15(t *testing.T) {
 	sb.WriteString("Definition c15_violating := Eval vm_compute in violating_cases cases.\nPrint c15_violating.\n")
 	sb.WriteString("Definition c15_history_mismatches := Eval vm_compute in mismatches (fun c => negb (history_ok c)) cases.\nPrint c15_history_mismatches.\n")
 	sb.WriteString("Definition c15_handler_mismatches := Eval vm_compute in mismatches (fun c => negb (handler_ok c)) hcases.\nPrint c15_handler_mismatches.\n")
+	sb.WriteString(ppairs.coq())
+	ioutil.WriteFile(filepath.Join(verifOut(), "CasesC15p.idx"), []byte(strings.Join(ppairs.idx, "\n")+"\n"), 0644)
+	res.Extra["profile_pairs"] = len(ppairs.terms)
 	if err := ioutil.WriteFile(filepath.Join(verifOut(), "CasesC15.v"), []byte(sb.String()), 0644); err != nil {
 		t.Fatal(err)
 	}
